@@ -247,6 +247,28 @@ def keyword_scripts():
         yield [b'i1 ID ' + idv + b'\r\n']
 
 
+def auth_scripts():
+    """AUTHENTICATE exchanges whose continuation data is hostile (run
+    before login)."""
+    import base64
+    ok = base64.b64encode(b'\0demouser\0demopass')
+    conts = [b'a', b'*', b'', b'====', b'!!!', base64.b64encode(b'nonul'),
+             base64.b64encode(b'\0a\0b'), base64.b64encode(b'\xff\0\xfe\0x'),
+             ok[:-1], b' ' + ok, ok + b' x', b'{3+}', b'"q"', b'x' * 5000,
+             base64.b64encode(b'a\0' + b'u' * 3000 + b'\0p')]
+    for mech in (b'PLAIN', b'LOGIN', b'plain', b'BOGUS', b'CRAM-MD5', b'""'):
+        for c in conts:
+            yield [(b'x1 AUTHENTICATE ' + mech + b'\r\n',
+                    (c + b'\r\n', c + b'\r\n')), b'x2 NOOP\r\n']
+        for c in conts[:6]:
+            # SASL-IR style initial response
+            yield [b'x1 AUTHENTICATE ' + mech + b' ' + c + b'\r\n',
+                   b'x2 NOOP\r\n']
+    for u, pw in ((b'demouser', b'bad'), (b'"a\\"b"', b'"c"'),
+                  (lit(b'\xe9'), lit(b'\xff')), (b'a', b'')):
+        yield [b'x1 LOGIN ' + u + b' ' + pw + b'\r\n', b'x2 NOOP\r\n']
+
+
 def families(tier):
     return [('names', list(name_scripts(2 if tier == 'quick' else 3))),
             ('headers', list(header_scripts())),
@@ -255,7 +277,8 @@ def families(tier):
             ('raw-names', list(raw_name_scripts())),
             ('dates', list(date_scripts())),
             ('field-names', list(field_name_scripts())),
-            ('cte', list(cte_scripts()))]
+            ('cte', list(cte_scripts())),
+            ('auth', list(auth_scripts()))]
 
 
 def run(*, tier, seed, jobs, progress, opts):
